@@ -57,7 +57,7 @@ CHUNK = 4
 TIMEOUT = 300
 
 
-def gen_cases(tier, seed):
+def _gen_cases_main(tier, seed):
     quick = tier == "quick"
     kinds = list(D.NAME_KINDS)
     ns = len(SCHEMES)
@@ -507,7 +507,20 @@ def setup():
     documented_refusal(ValueError())
 
 
-def check_case(case):
+def _check_case_main(case):
     if case["kind"] == "api":
         return guarded(check_api, case, ID, "BioConsert.compute_consensus_rankings does not return")
     return guarded(check_kernel, case, ID, "_improve_one_ranking does not return (called directly)")
+
+
+def gen_cases(tier, seed):
+    from bounded import history
+    yield from _gen_cases_main(tier, seed)
+    yield from history.history_cases(ID, tier, seed)
+
+
+def check_case(case):
+    if case.get("kind") == "history":
+        from bounded import history
+        return guarded(history.check_history, case, ID, 'history scenario does not return')
+    return _check_case_main(case)
